@@ -101,7 +101,10 @@ static size_t rtCurrentDevice(void *userdata, size_t track)
 static void rtSongBegin(void *userdata)
 {
     OPNMIDIplay *context = reinterpret_cast<OPNMIDIplay *>(userdata);
-    return context->realTime_ResetState();
+    context->realTime_ResetState();
+    // A song starts with the default program and bank on every channel, also when it is
+    // started again by a rewind or a seek after later parts of it have been played
+    context->realTime_ResetPrograms();
 }
 /* NonStandard calls End */
 
